@@ -186,6 +186,7 @@ struct Harness
     size_t memcap = 12; // setm is offered only below this capacity (keeps the space finite)
     int nkeys = 3;
     bool faults = false;
+    bool typed = true; // typed-macro conformance in the accessor step (not repeated in the fault jobs)
     std::string job;
     const std::vector<xs::Op> *via_api = nullptr;
     uint64_t fault_runs = 0, fault_requests = 0;
@@ -616,6 +617,124 @@ struct Harness
 #endif
     }
 
+
+    // ---------------------------------------------------------------- the typed macros of the container header
+    // A_VEC_AT(T, ctx, idx) and friends are what C callers use: each must give what the function of the same name gives and, like a
+    // function call, evaluate every argument expression exactly once (arguments with side effects: a cursor i++, a pointer walk).
+    // Read-only ones on one object at every index; mutating ones on two copies of the state, function on one, macro on the other.
+    void check_typed(const std::string &key, Ck &ck)
+    {
+        typedef unsigned char UC;
+#if defined(SEQ_VEC)
+#define FM(x) A_VEC_##x
+#else
+#define FM(x) A_BUF_##x
+#endif
+#define EV(x) (++ev, (x))
+#define TYPED_RO(n, name, mexpr, fexpr) \
+    do { ev = 0; const void *pm_ = (const void *)(mexpr); const void *pf_ = (const void *)(fexpr); \
+         if (ck.ok() && (pm_ != pf_ || ev != (n))) { ck.fail("typed-macro", std::string(name) + (ev != (n) ? " evaluates an argument " + std::to_string(ev) + " times in total instead of " + std::to_string(n) : " does not give what the function of the same name gives")); } } while (0)
+        int ev = 0;
+        {
+            Live L;
+            make(L, key);
+            cont *c = L.c;
+            g_siz = c->siz_;
+            size_t num = c->num_, mem = c->mem_;
+            TYPED_RO(1, "PTR", FM(PTR)(UC, EV(c)), F(ptr)(c));
+            TYPED_RO(1, "END", FM(END)(UC, EV(c)), F(end)(c));
+            TYPED_RO(1, "TOP", FM(TOP)(UC, EV(c)), F(top)(c));
+            if (num) { TYPED_RO(1, "TOP_", FM(TOP_)(UC, EV(c)), F(top_)(c)); }
+#if defined(SEQ_VEC)
+            if (c->ptr_) { TYPED_RO(1, "END_", A_VEC_END_(UC, EV(c)), a_vec_end_(c)); }
+#endif
+            for (size_t i = 0; i <= mem + 1 && ck.ok(); ++i)
+            {
+                size_t cur = i;
+                TYPED_RO(2, "AT", FM(AT)(UC, EV(c), EV(cur++)), F(at)(c, i));
+                if (ck.ok() && cur != i + 1) { ck.fail("typed-macro", "AT advanced the index expression more than once"); }
+                if (i < mem) { cur = i; TYPED_RO(2, "AT_", FM(AT_)(UC, EV(c), EV(cur++)), F(at_)(c, i)); }
+            }
+            for (long i = -(long)num - 1; i <= (long)num && ck.ok(); ++i)
+            {
+                long cur = i;
+                TYPED_RO(2, "OF", FM(OF)(UC, EV(c), EV((a_diff)cur++)), F(of)(c, (a_diff)i));
+            }
+            for (int k = 0; k < 3 && ck.ok(); ++k)
+            {
+                unsigned char probe[32];
+                fill_elem(probe, (unsigned char)(k << 4), c->siz_);
+                TYPED_RO(3, "SEARCH", FM(SEARCH)(UC, EV(c), EV(probe), EV(cmp_key)), F(search)(c, probe, cmp_key));
+            }
+            if (ck.ok() && encode(L) != key) { ck.fail("typed-macro", "a read-only typed macro changed the container"); }
+            Ck dk;
+            destroy(L, dk);
+        }
+        // mutating macros: 0 push_back 1 push_fore 2 push 3 insert(idx) 4 push_sort 5 pull_back 6 pull_fore 7 pull 8 remove(idx)
+        size_t num0 = (unsigned char)key[2];
+        for (int mth = 0; mth <= 8 && ck.ok(); ++mth)
+        {
+            for (size_t idx = 0; idx <= (mth == 3 || mth == 8 ? num0 + 1 : 0) && ck.ok(); ++idx)
+            {
+                Live A, B;
+                make(A, key);
+                unsigned char blk[32];
+                fill_elem(blk, (unsigned char)(1 << 4 | 9), A.c->siz_);
+                g_siz = A.c->siz_;
+                void *pa = nullptr, *pb = nullptr;
+                cont *a = A.c;
+                switch (mth)
+                {
+                case 0: pa = F(push_back)(a); break;
+                case 1: pa = F(push_fore)(a); break;
+                case 2: pa = F(push)(a); break;
+                case 3: pa = F(insert)(a, idx); break;
+                case 4: pa = F(push_sort)(a, blk, cmp_key); break;
+                case 5: pa = F(pull_back)(a); break;
+                case 6: pa = F(pull_fore)(a); break;
+                case 7: pa = F(pull)(a); break;
+                case 8: pa = F(remove)(a, idx); break;
+                }
+                long offa = pa ? (long)((unsigned char *)pa - A.data()) : -1;
+                size_t numa = A.c->num_;
+                std::string conta;
+                if (pa && mth <= 4) { fill_elem(pa, (unsigned char)(1 << 4 | 9), A.c->siz_); }
+                std::string ela = pa ? std::string((char *)pa, A.c->siz_) : std::string();
+                std::string bytesa((char *)A.data(), A.c->num_ * A.c->siz_);
+                Ck dk;
+                destroy(A, dk);
+                make(B, key);
+                cont *b = B.c;
+                size_t cur = idx;
+                ev = 0;
+                int want_ev = 1;
+                switch (mth)
+                {
+                case 0: pb = FM(PUSH_BACK)(UC, EV(b)); break;
+                case 1: pb = FM(PUSH_FORE)(UC, EV(b)); break;
+                case 2: pb = FM(PUSH)(UC, EV(b)); break;
+                case 3: pb = FM(INSERT)(UC, EV(b), EV(cur++)); want_ev = 2; break;
+                case 4: pb = FM(PUSH_SORT)(UC, EV(b), EV(blk), EV(cmp_key)); want_ev = 3; break;
+                case 5: pb = FM(PULL_BACK)(UC, EV(b)); break;
+                case 6: pb = FM(PULL_FORE)(UC, EV(b)); break;
+                case 7: pb = FM(PULL)(UC, EV(b)); break;
+                case 8: pb = FM(REMOVE)(UC, EV(b), EV(cur++)); want_ev = 2; break;
+                }
+                static const char *MN[9] = {"PUSH_BACK", "PUSH_FORE", "PUSH", "INSERT", "PUSH_SORT", "PULL_BACK", "PULL_FORE", "PULL", "REMOVE"};
+                long offb = pb ? (long)((unsigned char *)pb - B.data()) : -1;
+                if (pb && mth <= 4) { fill_elem(pb, (unsigned char)(1 << 4 | 9), B.c->siz_); }
+                std::string elb = pb ? std::string((char *)pb, B.c->siz_) : std::string();
+                std::string bytesb((char *)B.data(), B.c->num_ * B.c->siz_);
+                if (ev != want_ev) { ck.fail("typed-macro", std::string(MN[mth]) + " evaluates its arguments " + std::to_string(ev) + " times in total instead of " + std::to_string(want_ev)); }
+                else if (offa != offb || numa != B.c->num_ || ela != elb || bytesa != bytesb) { ck.fail("typed-macro", std::string(MN[mth]) + " does not do what the function of the same name does"); }
+                destroy(B, dk);
+            }
+        }
+#undef TYPED_RO
+#undef EV
+#undef FM
+    }
+
     // the iteration macros of the container header, for an element type of exactly the container's element size:
     // forward / reverse element loops (C99 and C89 forms) must visit the element addresses in order, the index loops 0..num-1
     template <size_t S>
@@ -756,6 +875,7 @@ struct Harness
                 if (ck.ok()) { check_loops_any(L, ck); }
                 if (ck.ok() && encode(L) != key) { ck.fail("accessor", "accessors changed the container"); }
                 if (ck.ok()) { destroy(L, ck); }
+                if (ck.ok() && typed) { check_typed(key, ck); }
                 out.leave();
                 if (!ck.ok()) { out.viol(o, std::string(CNAME "|access|") + ck.cls, "accessors on " + key_str(key) + ": " + ck.err); }
                 else { out.succ(o, key, "access", "all-indices"); }
@@ -919,6 +1039,7 @@ int main(int argc, char **argv)
     h.memcap = (size_t)args.geti("memcap", 12);
     h.nkeys = (int)args.geti("keys", 3);
     h.faults = args.geti("faults", 0) != 0;
+    h.typed = !h.faults;
     h.job = args.get("job", CNAME);
     vx::deadline().limit_s = args.getd("deadline", 1e18);
     if (args.has("replay-raw")) { return xs::replay_main(h, args.get("replay-raw")); }
